@@ -73,7 +73,9 @@ class AdaptiveAdapter(Adapter):
         f = Fraction(self.wnum, self.wden)
         return v * (f * f if sq else f)
 
-    def _point(self, cell, cls):
+    def _point(self, cell, cls, rec=None):
+        if rec is not None:
+            return [self._g(rec["axes"][a]["grid"] - 1).x(k, cls) for a, k in enumerate(cell)]
         return [self._g(a).x(k, cls) for a, k in enumerate(cell)]
 
     def _kwargs(self, dim):
@@ -110,7 +112,7 @@ class AdaptiveAdapter(Adapter):
                 o[k] = self._new(dim, batch)
             elif action == "Fill":
                 i, cell, cls, w = args
-                pt = self._point(cell, cls)
+                pt = self._point(cell, cls, fmap(pre["pool"])[i])
                 h = o[i]
                 if len(cell) == 1:
                     obs["ret"] = h.fill(pt[0]) if (w == 1 and self.wden == 1 and self.spelling % 2) else h.fill(pt[0], self._w(w))
@@ -120,7 +122,7 @@ class AdaptiveAdapter(Adapter):
                 i, batch = args
                 h = o[i]
                 dim = h.ndim
-                pts = [self._point(e[0], e[1]) for e in batch]
+                pts = [self._point(e[0], e[1], fmap(pre["pool"])[i]) for e in batch]
                 w = None
                 if any(e[2] != 1 for e in batch) or self.wden != 1:
                     w = np.array([self._w(e[2]) for e in batch])
@@ -231,7 +233,7 @@ class AdaptiveAdapter(Adapter):
             if rec.get("proj") is not None:
                 grids = [self._g(rec["proj"] - 1)]
             try:
-                self._cmp(real[i], rec, view, bad, det, str(i), self._grids_of(i, real, rec))
+                self._cmp(real[i], rec, view, bad, det, str(i), [self._g(ax["grid"] - 1) for ax in rec["axes"]])
             except EXC as ex:
                 bad.append("snapshot")
                 det[f"{i}.snapshot"] = f"{type(ex).__name__}: {ex}"
